@@ -108,6 +108,44 @@ fn check_query(t: &mut Tally, r: &mut Rng, q: &str, class: &str) {
                     other => viol(t, "respelling", format!("canon({:?}) = {:?} but canon(respelled {:?}) = {:?}", q, g, q3, other), q),
                 }
             }
+            // straight after this string, the string that differs from it only in the letter case of names and values (escape
+            // digits left alone): another multiset, its own canonical form — whatever was canonicalised just before
+            let qb = q.as_bytes();
+            let mut q4: Vec<u8> = Vec::with_capacity(qb.len());
+            let mut k = 0;
+            while k < qb.len() {
+                if qb[k] == b'%' && k + 2 < qb.len() + 0 && k + 2 <= qb.len() - 1 {
+                    q4.extend_from_slice(&qb[k..k + 3]);
+                    k += 3;
+                    continue;
+                }
+                let b = qb[k];
+                q4.push(if b.is_ascii_lowercase() {
+                    b.to_ascii_uppercase()
+                } else if b.is_ascii_uppercase() {
+                    b.to_ascii_lowercase()
+                } else {
+                    b
+                });
+                k += 1;
+            }
+            if let Ok(q4) = String::from_utf8(q4) {
+                if q4 != q {
+                    if let Ok(p4) = parse_query(q4.as_bytes()) {
+                        let w4 = canon_query(&p4);
+                        let _ = lib_canon_query(q);
+                        match lib_canon_query(&q4) {
+                            Ok(Ok(g4)) if g4 == w4 => {
+                                t.count("letter_case_sibling_right_after");
+                                if q.contains('%') {
+                                    t.count("letter_case_sibling_right_after_with_escapes");
+                                }
+                            }
+                            other => viol(t, "case-sibling-after", format!("right after {:?}, canon({:?}) = {:?}, reference {:?}", q, q4, other, w4), &q4),
+                        }
+                    }
+                }
+            }
         }
         (Err((k, st, _)), Err(())) => {
             if *k != Kind::MalformedQueryString || *st != 400 {
@@ -503,6 +541,7 @@ pub fn run(tier: Tier) -> i32 {
     ctx.gate("byte values escaped in name and value positions", tally.get("agree/byte-escaped"), 1024);
     ctx.gate("malformed escapes refused with the reference class", tally.get("agree_malformed"), tier.n(1000, 20_000));
     ctx.gate("permutation relation evaluated", tally.get("permutation_invariant"), tier.n(20_000, 500_000));
+    ctx.gate("letter-case sibling canonicalised right after its original (strings with escapes)", tally.get("letter_case_sibling_right_after_with_escapes"), tier.n(5_000, 100_000));
     ctx.gate("respelling relation evaluated", tally.get("respelling_invariant"), tier.n(20_000, 500_000));
     ctx.gate("fresh processes agreeing on the corpus digest", tally.get("fresh_processes_agreeing"), procs);
     ctx.gate("end-to-end accepted, header carrier", tally.get("e2e_accepted/hdr"), tier.n(5000, 100_000));
